@@ -351,6 +351,30 @@ def rule_exc(rep, S, d):
                                                 **({} if ok else {"detail": "the element is accessed on a path without check_index(%s, size())" % p}))
 
 
+def rule_capacity(rep, S, cap):
+    """the character buffer of every layout has room for N characters and the terminator"""
+    R = "C02.capacity"
+    from .c01 import storage_of
+    d = S.d
+    st = storage_of(S)
+    if st is None:
+        rep.inconclusive(R, S.tag, "buffer extent", detail="storage class of m_storage not found")
+        return
+    ta = " ".join(ir.template_args(st))
+    m = re.search(r"\[(\d+)\]", ta)
+    lab = "%s [%s]" % (st.get("name"), S.tag)
+    if not m:
+        rep.inconclusive(R, lab, "buffer extent", where=d.where(st), detail="storage is not an array type: %s" % ta)
+        return
+    ext = int(m.group(1))
+    if ext == cap + 1:
+        rep.holds(R, lab, "buffer extent", where=d.where(st), detail="%s: N+1 = %d characters for capacity N = %d" % (ta, ext, cap))
+    else:
+        rep.violates(R, lab, "buffer extent", where=d.where(st),
+                     detail="the buffer is `%s` (%d characters) while the policy admits lengths up to N = %d: the terminator of a full string is written at index %d, "
+                            "%s" % (ta, ext, cap, cap, "one past the object" if ext <= cap else "and the extra room is never used"))
+
+
 def run(tier):
     rep = Report("C02", tier, "other",
                  "Structural necessary conditions decided on every instantiated member of xbasic_fixed_string with the throwing policy (packed and strlen "
@@ -371,6 +395,9 @@ def run(tier):
     rep.rule("C02.extent", "every character write (traits assign/copy/move, std::copy/copy_backward/fill, element stores) has a destination range [start, end) with "
                            "0 <= start and end <= N provable by linear arithmetic from the capacity/position checks, branch conditions and min() clamps established on its path "
                            "(size() <= N on entry; iterator ranges valid)")
+    rep.rule("C02.capacity", "the character array of the selected storage layout has exactly N+1 elements: room for the N characters the policy admits plus the terminator")
+    rep.rule("C02.reads", "in the search and compare family a traits compare/find over the string's own buffer covers a range that provably ends at or before data()+size() "
+                          "(first loop iteration; forms that are not linear are skipped)")
     rep.rule("C02.len", "no offset is computed from a derived length (size()/end()/...) after a possibly growing publication of the same body: on the strlen layout that length is "
                         "stale and the write lands outside the intended range (before the buffer when count > old size)")
     rep.rule("C02.exc", "check_size: length_error iff size > N; check_add = check_size(a+b); check_index: out_of_range iff pos >= size; check_index_strict(p,s) = "
@@ -392,20 +419,27 @@ def run(tier):
         from .c01 import rule_len
         rule_len(rep, S, "C02.len")
         rule_extent(rep, S, caps[tag])
+        rule_extent(rep, S, caps[tag], "read", "C02.reads")
+        rule_capacity(rep, S, caps[tag])
     return rep
 
 
 # ---------------------------------------------------------------------------------------------------------------------
 # C02.extent - every character write lies inside the object's own buffer
-def rule_extent(rep, S, cap):
-    """For every character write of every member (throwing policy): destination range [start, end) as linear forms over the entry
+def rule_extent(rep, S, cap, mode="write", R="C02.extent"):
+    """mode="read": the same machinery for character READS of *this in the search/compare family (traits compare/find over a range of the own
+    buffer must end at or before data()+size()); unknown forms are skipped there.
+    For every character write of every member (throwing policy): destination range [start, end) as linear forms over the entry
     size, the capacity, the parameters and the checked values; obligation 0 <= start and end <= N from the facts the path
     established (policy checks, position checks, branch conditions, min() clamps, size() <= N)."""
-    R = "C02.extent"
     d = S.d
     import itertools
     for fn in S.fns:
-        if fn.get("isImplicit") or fn.get("explicitlyDefaulted") or re.search(r"\)\s*const", ir.qtype(fn)):
+        if fn.get("isImplicit") or fn.get("explicitlyDefaulted"):
+            continue
+        if mode == "write" and re.search(r"\)\s*const", ir.qtype(fn)):
+            continue
+        if mode == "read" and not (fn.get("name") or "").startswith(("find", "rfind", "compare")):
             continue
         lab = "%s::%s" % (S.tag, S.label(fn))
         bl = fs.buffer_locals(fn)
@@ -417,14 +451,14 @@ def rule_extent(rep, S, cap):
             paths = flow.function_paths(fn, with_ctor_inits=False)
         except cj.AnalysisBroken:
             continue
-        if not any(fs.write_event(st[1], fn, bl) for path in paths for st in path if st[0] == "ev"):
+        if mode == "write" and not any(fs.write_event(st[1], fn, bl) for path in paths for st in path if st[0] == "ev"):
             continue
         results = {}
         for path in paths:
             # each std::min on the path is split into its two cases
             mins = [st[1] for st in path if st[0] == "ev" and st[1].get("kind") == "CallExpr" and (ir.strip(ir.ekids(st[1])[0]).get("referencedDecl") or {}).get("name") == "min"]
             for choice in itertools.product((0, 1), repeat=min(len(mins), 4)):
-                pick = {id(m): c for m, c in zip(mins, choice)}
+                min_i = [0]
                 env = {}
                 facts = [Lin({"N": 1, "S": -1})]                       # size() <= N on entry
                 nonneg = {"S", "N"} | {"p:" + x for x in uint_params}
@@ -477,6 +511,15 @@ def rule_extent(rep, S, cap):
                                 facts.append(Lin({"N": 1}) - a - b)
                                 return a + b
                             return None
+                        if c == ("ref", "min") and len(t) == 4:
+                            a, b = val(t[2]), val(t[3])
+                            if a is None or b is None:
+                                return None
+                            ci = choice[min_i[0]] if min_i[0] < len(choice) else 0
+                            min_i[0] += 1
+                            m, o = (a, b) if ci == 0 else (b, a)
+                            facts.append(o - m)
+                            return m
                         if c == ("ref", "distance") or c == ("ref", "length"):
                             key = "len:" + ir.show(t)[:40]
                             nonneg.add(key)
@@ -506,6 +549,15 @@ def rule_extent(rep, S, cap):
                         return None
                     if t[0] == "call" and t[1] == ("mem", ("mem", ("this",), "m_storage"), "buffer"):
                         return Lin()
+                    if t[0] == "call" and t[1] == ("ref", "min") and len(t) == 4:
+                        a, b = off(t[2]), off(t[3])
+                        if a is None or b is None:
+                            return None
+                        ci = choice[min_i[0]] if min_i[0] < len(choice) else 0
+                        min_i[0] += 1
+                        m, o = (a, b) if ci == 0 else (b, a)
+                        facts.append(o - m)
+                        return m
                     if t[0] == "ref":
                         if t[1] in it_params:
                             return Lin({"it:" + t[1]: 1})
@@ -544,22 +596,8 @@ def rule_extent(rep, S, cap):
                         init = ir.ekids(v)
                         if not init:
                             continue
-                        node = ir.strip(init[-1])
                         t = ir.sx(init[-1])
-                        if node.get("kind") == "CallExpr" and id(node) in pick:
-                            a, b = val(t[2]), val(t[3])
-                            if a is None or b is None:
-                                a, b = off(t[2]), off(t[3])
-                                if a is not None and b is not None:
-                                    m, o = (a, b) if pick[id(node)] == 0 else (b, a)
-                                    env[("ptr", v.get("name"))] = m
-                                    facts.append(o - m)
-                                continue
-                            m, o = (a, b) if pick[id(node)] == 0 else (b, a)
-                            env[v.get("name")] = m
-                            facts.append(o - m)
-                            continue
-                        x = val(t)
+                        x = val(t) if "*" not in ir.qtype(v) else None
                         if x is not None and "*" not in ir.qtype(v):
                             env[v.get("name")] = x
                             continue
@@ -584,6 +622,39 @@ def rule_extent(rep, S, cap):
                         continue
                     if fs.policy_check(n):
                         val(t)
+                        continue
+                    if mode == "read":
+                        ranges = []
+                        if fs.this_member_call(n) == "compare_impl" and len(t) == 6:
+                            o_, ln = off(t[2]), val(t[3])
+                            if o_ is not None and ln is not None:
+                                ranges.append((o_, o_ + ln))
+                        elif n.get("kind") != "CallExpr" or t[0] != "call" or t[1][0] != "ref" or t[1][1] not in ("compare", "find") or len(t) != 5:
+                            continue
+                        rargs = t[2:]
+                        if ranges:
+                            pass
+                        elif t[1][1] == "compare":
+                            ln = val(rargs[2])
+                            for a_ in rargs[:2]:
+                                o_ = off(a_)
+                                if o_ is not None and ln is not None:
+                                    ranges.append((o_, o_ + ln))
+                        else:
+                            from .. import trange as _tr
+                            if _tr.type_range(ir.qtype(ir.ekids(n)[2])) is not None:      # traits::find(p, n, ch)
+                                o_, ln = off(rargs[0]), val(rargs[1])
+                                if o_ is not None and ln is not None:
+                                    ranges.append((o_, o_ + ln))
+                        for start, end in ranges:
+                            ok_lo = linear.entails(facts, start, tuple(nonneg))
+                            ok_hi = linear.entails(facts, Lin({"S": 1}) - end, tuple(nonneg))
+                            key = (id(n), start.show())
+                            if ok_lo and ok_hi:
+                                results.setdefault(key, [n, "ok", "reads [%s, %s) within [0, size()]" % (start.show(), end.show())])
+                            else:
+                                results[key] = [n, "bad", "reads the own buffer over [%s, %s), which is not provably inside [0, size()] on this path: characters behind the "
+                                                          "terminator (stale bytes of an earlier, longer value) take part in the result" % (start.show(), end.show())]
                         continue
                     w = fs.write_event(n, fn, bl)
                     if w is None:
